@@ -24,8 +24,8 @@ PROPS = {
                 'ring-rich graphs; read: accepted strings whose graph builds; kinds: the text of every atom-kind family. The oracle re-reads what '
                 'was written and tests isomorphism. non-trivial = accepted, at least one atom. soak: three size families of 10^5 (thorough 10^6) atoms, '
                 'i.e. atom indices beyond 16 bits, through read -> build -> walk -> write -> read -> build with the isomorphism tested at that size',
-        'soak': {'quick': [('chain', 100000), ('comb', 100000), ('ringlist', 100000)],
-                 'thorough': [('chain', 1000000), ('comb', 1000000), ('ringlist', 1000000), ('macrocycle', 300000)]},
+        'soak': {'quick': [('chain', 100000), ('comb', 100000), ('ringlist', 100000), ('straddle', 65542)],
+                 'thorough': [('chain', 1000000), ('comb', 1000000), ('ringlist', 1000000), ('macrocycle', 300000), ('straddle', 65542), ('straddle', 200000)]},
         'assumptions': ASSUME_COMMON,
     },
     'C02': {
@@ -38,8 +38,8 @@ PROPS = {
                 'branches, re-used ring numbers, several digits per atom, explicit / elided / directional kinds on either end of a closure; atom: every '
                 'token family. Events and the built graph (or build error) are compared. non-trivial = not refused at position 0. soak: the built graph '
                 'compared with the independent interpreter at 10^5 (thorough 10^6) atoms (atom indices beyond 16 bits)',
-        'soak': {'quick': [('chain', 100000), ('comb', 100000), ('ringlist', 100000)],
-                 'thorough': [('chain', 1000000), ('comb', 1000000), ('ringlist', 1000000), ('macrocycle', 300000)]},
+        'soak': {'quick': [('chain', 100000), ('comb', 100000), ('ringlist', 100000), ('straddle', 65542)],
+                 'thorough': [('chain', 1000000), ('comb', 1000000), ('ringlist', 1000000), ('macrocycle', 300000), ('straddle', 65542), ('straddle', 200000)]},
         'assumptions': ASSUME_COMMON,
     },
     'C03': {
@@ -73,8 +73,8 @@ PROPS = {
         ],
         'rule': 'the S-graph and S-read sets; every well-formed input is additionally written in three fresh threads (fresh HashMap seeds) and '
                 'rewritten twice by the oracle. non-trivial = accepted. soak: the fixed point at 10^5 (thorough 10^6) atoms',
-        'soak': {'quick': [('chain', 100000), ('comb', 100000), ('ringlist', 100000)],
-                 'thorough': [('chain', 1000000), ('comb', 1000000), ('ringlist', 1000000), ('macrocycle', 300000)]},
+        'soak': {'quick': [('chain', 100000), ('comb', 100000), ('ringlist', 100000), ('straddle', 65542)],
+                 'thorough': [('chain', 1000000), ('comb', 1000000), ('ringlist', 1000000), ('macrocycle', 300000), ('straddle', 65542), ('straddle', 200000)]},
         'assumptions': ASSUME_COMMON + ['hash-seed independence is a runtime fact: measured by repeated runs in fresh threads, not proved'],
     },
     'C15': {
@@ -120,9 +120,9 @@ PROPS = {
             {'name': 'read', 'fields': ['V', 'D'], 'nontrivial': nontrivial_read},
         ],
         'soak': {'quick': [('chain', 200000), ('dots', 200000), ('branches', 100000), ('ringlist', 200000), ('ringchain', 290),
-                           ('branchchain', 300000), ('macrocycle', 300000), ('comb', 200000)],
+                           ('branchchain', 300000), ('macrocycle', 300000), ('comb', 200000), ('singlechain', 300000), ('dirchain', 300000)],
                  'thorough': [('chain', 1000000), ('dots', 1000000), ('branches', 500000), ('ringlist', 1000000), ('ringchain', 290), ('digits', 300000),
-                              ('branchchain', 1000000), ('macrocycle', 1000000), ('comb', 1000000)]},
+                              ('branchchain', 1000000), ('macrocycle', 1000000), ('comb', 1000000), ('singlechain', 1000000), ('dirchain', 1000000)]},
         'rule': 'depth: six size families with constant nesting (chain, dot list, branches on one atom, dot-separated rings, ring chain, ring digit '
                 'list) at 1..5000 (thorough 12000) atoms and two nested families up to depth 200: the activation counter of the hook is compared '
                 'with the model depth on every string; read: the same comparison on the S-read strings; soak: read -> build -> walk -> write -> '
@@ -140,9 +140,9 @@ PROPS = {
             {'name': 'depth', 'panic_only': True},
         ],
         'soak': {'quick': [('nested', 100000), ('chain', 100000), ('dots', 200000), ('branches', 100000), ('ringlist', 200000),
-                           ('branchchain', 300000), ('macrocycle', 300000)],
+                           ('branchchain', 300000), ('macrocycle', 300000), ('singlechain', 300000)],
                  'thorough': [('nested', 100000), ('chain', 1000000), ('dots', 1000000), ('branches', 500000), ('ringlist', 1000000),
-                              ('branchchain', 1000000), ('macrocycle', 1000000), ('comb', 1000000)]},
+                              ('branchchain', 1000000), ('macrocycle', 1000000), ('comb', 1000000), ('singlechain', 1000000), ('dirchain', 1000000)]},
         'rule': 'every suite of the harness with the panic behaviour of every response field compared (a panic of the real code where the model has none is a '
                 'disagreement): bounded-exhaustive and random strings incl. multi-byte and control characters, all small adjacency lists '
                 'incl. garbage (dangling, self, duplicate, asymmetric bonds), random well-formed and mutated graphs up to 300 atoms, ring-rich '
@@ -221,7 +221,11 @@ PROPS = {
         'rule': 'pool: every open/close interleaving of up to 5 (thorough 6) pairs (canonical pair naming), sequential runs of 10..10^4 '
                 'rings followed by fused ones, 98..150 simultaneously open closures, random hit sequences; graph: all small graphs, '
                 'random well-formed ring systems, ring-rich combs with up to 120 open closures, 5/120/300 sequential rings then a fused '
-                'bicycle. non-trivial (graph) = the traversal emitted at least one join; distinct = distinct request lines',
+                'bicycle. non-trivial (graph) = the traversal emitted at least one join; distinct = distinct request lines. soak: ring numbers '
+                'watched along traversals of 10^5 (thorough 10^6) atoms (smallest free number at every opening, both ends of a number bonded '
+                'in the graph), including two closures open at once whose atom ids straddle 16 bits',
+        'soak': {'quick': [('straddle', 65542), ('straddle', 100000), ('ringlist', 100000), ('macrocycle', 100000)],
+                 'thorough': [('straddle', 65542), ('straddle', 131078), ('straddle', 1000000), ('ringlist', 1000000), ('macrocycle', 1000000)]},
         'assumptions': ASSUME_COMMON,
     },
     'C16': {
